@@ -99,6 +99,7 @@ class Setup:
 
     def init_tree(self):
         import random
+        F.set_tmp_prefix(U.leaf_prefix(self.mode))
         U.wipe(self.root)
         os.makedirs(os.path.join(self.root, 'keep'))
         with open(os.path.join(self.root, 'keep', 'other.bin'), 'wb') as f:
@@ -157,7 +158,7 @@ def comparable(kind, op, path, in_final, mode):
 RX_PART = re.compile(r'^%s/part\.\d+\.parquet$' % U.DS)
 
 
-def site_of(f, trace):
+def site_of(f, trace, mode='flat'):
     """where in the procedure the call of a fired fault sits, read off the run's own trace:
     <kind>@<op>:<path class>[:<enclosing function>]"""
     pos, kind, op, path = f[0], f[1], f[2], f[3]
@@ -166,7 +167,7 @@ def site_of(f, trace):
         cls = 'dataset'
     elif RX_PART.match(path):
         cls = 'part'
-    elif re.match(r'^(.*/)?t\d+$', path):
+    elif mode != 'inside' and U.tmp_dir_rx(mode).match(path):
         cls = 'tmpdir'
     elif re.match(r'^part\d+\.parquet$', base):
         cls = 'subpart'
@@ -210,7 +211,7 @@ def judge(rep, st, col, clean, o, label, plan_desc):
     for f in o.fired:
         rep.count(f'fired:{f[1]}:{f[2]}')
     tree = st.snapshot(clean['cells'], clean['ref'])
-    sites = {site_of(f, o.trace) for f in o.fired}
+    sites = {site_of(f, o.trace, st.mode) for f in o.fired}
     kinds = '+'.join(sorted(sites)) or 'none'
     mech = mechanism(sites)
 
@@ -294,7 +295,7 @@ def judge(rep, st, col, clean, o, label, plan_desc):
         else:
             tree2 = st.snapshot(clean['cells'], clean['ref'])
             a, b = norm_tree(ds_only(tree2)), norm_tree(ds_only(clean['tree']))
-            if st.mode == 'flat':
+            if st.mode in ('flat', 'sib'):
                 a, b = norm_tree(tree2), clean['norm']
             if a != b:
                 rep.violation(sig('recover-differs'), 'after an aborted run the repeat with overwrite=True left '
@@ -315,6 +316,7 @@ def find_setups(rep, root, tier):
            Setup(rep, root, 'M-flat', 5, 'dup', [0, 2, 5], 4, 'flat', K)]
     if tier != 'quick':
         out += [Setup(rep, root, 'M-uuid', 5, 'dup', [0, 2, 5], 4, 'uuid', K),
+                Setup(rep, root, 'M-sib', 5, 'dup', [0, 2, 5], 4, 'sib', K),
                 Setup(rep, root, 'A-inside', 6, 'plain', [0, 3, 6], 3, 'inside', K),
                 Setup(rep, root, 'A-flat', 6, 'plain', [0, 3, 6], 3, 'flat', K),
                 Setup(rep, root, 'B-inside', 4, 'dup', [0, 2, 4], 5, 'inside', K),
@@ -369,7 +371,7 @@ def run_setup(rep, st, col, tier):
     if st.mode != 'inside':
         for j, t in enumerate(o.trace[:-1]):
             nxt = o.trace[j + 1]
-            if t[0] == 'rm' and re.match(r'^(.*/)?t\d+$', t[1]) and nxt[:2] == ('exists', t[1]):
+            if t[0] == 'rm' and U.tmp_dir_rx(st.mode).match(t[1]) and nxt[:2] == ('exists', t[1]):
                 rep.count('corpus:fnf-rm+lying-exists')
                 go({j + 1: 'fnf', j + 2: 'lie'}, 'corpus')
                 break
